@@ -10,9 +10,8 @@
    [dest_priced g st]: the destination publishes fee components and a wrapped-native price (the costly-message
    observer cannot price anything otherwise).
 
-   Full-strength statement for execute (false of the current code, see C11_exec_refuted):
-     forall g i st phase, cfg_ok g i = true -> values_ok st = true -> no_failures st -> dest_priced g st = true ->
-       (phase <= 2)%N -> exists ob, observe_exec g i st phase = Ok ob /\ validate_exec g i ob = true *)
+   The full-strength statements C11_commit and C11_exec hold of the repaired code; the pre-repair functions are
+   refuted in the *_unfixed_*refuted theorems (F05, F18a, F18b, F18c, F18d). *)
 Require Import Verif.Model.Base Verif.Model.Roles Verif.Proofs.RolesP.
 
 (* commit, every role assignment, every phase, every pattern of failing calls: no panic, an observation is
@@ -44,27 +43,28 @@ Theorem C11_exec_no_panic : forall g i st phase, observe_exec g i st phase <> Pa
 Proof. exact exec_no_panic. Qed.
 Print Assumptions C11_exec_no_panic.
 
-(* execute: with every call succeeding an observation is produced, except in the two recorded classes
-   F18c (GetMessages phase, reports pending, no destination access: the costly-message observer needs the destination)
-   F18d (GetCommitReports phase, destination access, an on-chain report from a source chain the oracle does not read) *)
-Theorem C11_exec_except_known : forall g i st phase,
+(* execute, full strength: with every call succeeding an observation is produced and accepted, for every role
+   assignment, oracle, chain state and phase.  (Holds since the repairs of F18b, F18c, F18d.) *)
+Theorem C11_exec : forall g i st phase,
   cfg_ok g i = true -> values_ok st = true -> no_failures st -> dest_priced g st = true -> (phase <= 2)%N ->
-  f18c_class g i st phase = false -> f18d_class g i st phase = false ->
   exists ob, observe_exec g i st phase = Ok ob /\ validate_exec g i ob = true.
 Proof.
-  intros g i st phase Hc Hv Hn Hpr Hp H1 H2.
-  destruct (exec_produced_except_known g i st phase Hn Hpr Hp H1 H2) as [ob Hob].
+  intros g i st phase Hc Hv Hn Hpr Hp.
+  destruct (exec_produced g i st phase Hn Hpr Hp) as [ob Hob].
   exists ob. split; [exact Hob|]. exact (exec_honest_valid g i st Hc Hv phase ob Hob).
 Qed.
-Print Assumptions C11_exec_except_known.
+Print Assumptions C11_exec.
 
-Theorem C11_exec_refuted :
-  (exists g i st, cfg_ok g i = true /\ values_ok st = true /\ no_failures st /\
-                  f18c_class g i st 1 = true /\ observe_exec g i st 1 = Err) /\
-  (exists g i st, cfg_ok g i = true /\ values_ok st = true /\ no_failures st /\
-                  f18d_class g i st 0 = true /\ observe_exec g i st 0 = Err).
-Proof. exact exec_refuted. Qed.
-Print Assumptions C11_exec_refuted.
+(* before the repairs:
+   F18c (GetMessages phase, reports pending, no destination access: the costly-message observer needs the destination)
+   F18d (GetCommitReports phase, destination access, an on-chain report from a source chain the oracle does not read) *)
+Theorem C11_exec_unfixed_cd_refuted :
+  (exists g i st, cfg_ok g i = true /\ values_ok st = true /\ no_failures st /\ dest_priced g st = true /\
+                  f18c_class g i st 1 = true /\ observe_exec_unfixed_c g i st 1 = Err) /\
+  (exists g i st, cfg_ok g i = true /\ values_ok st = true /\ no_failures st /\ dest_priced g st = true /\
+                  f18d_class g i st 0 = true /\ observe_exec_unfixed_d g i st 0 = Err).
+Proof. exact exec_unfixed_cd_refuted. Qed.
+Print Assumptions C11_exec_unfixed_cd_refuted.
 
 (* before the repair of F18b a pending report of a source chain the oracle does not read failed the whole
    GetMessages observation of an oracle with destination access *)
